@@ -42,6 +42,10 @@ pub struct Spec {
     /// labelled with that key's id (true: the genuine signature bytes of key i; false: junk)
     #[serde(default)]
     pub unknown_scheme: Option<(usize, bool)>,
+    /// key `i` is additionally authorised as a copy loaded from a JSON key document whose `keyid` member names a
+    /// foreign id, and its genuine signature is repeated labelled with that foreign id (it must count for nobody)
+    #[serde(default)]
+    pub json_alias: Option<usize>,
 }
 
 fn entry(nkeys: usize) -> BoxedStrategy<Entry> {
@@ -85,7 +89,7 @@ pub fn spec_strategy(cheap: bool, max_keys: usize) -> BoxedStrategy<Spec> {
                 proptest::option::weighted(0.15, (0..n, any::<bool>())),
             )
         })
-        .prop_map(|(keys, content, entries, authorized, threshold, perm, unknown_scheme)| Spec { content, keys, entries, authorized, threshold, perm, unknown_scheme })
+        .prop_map(|(keys, content, entries, authorized, threshold, perm, unknown_scheme)| Spec { content, keys, entries, authorized, threshold, perm, unknown_scheme, json_alias: None })
         .boxed()
 }
 
@@ -145,12 +149,12 @@ impl Property for C04 {
     fn rule() -> String {
         "Generated: a link as content; 1-4 keys of distinct material (all schemes); a signature list of entries in {genuine, second fresh \
          signature by the same key, one bit flipped, made by key A but labelled id(B), genuine over different content - that other block having been verified and accepted earlier in the same process}; an authorised key \
-         list with duplicates/subsets/empty; threshold in {0..n+1, u32::MAX}; a permutation of both lists. Enumerated: all configurations for \
+         list with duplicates/subsets/empty, optionally extended by a copy of one key loaded from a JSON document with a foreign keyid member (plus that key's signature relabelled with the foreign id); threshold in {0..n+1, u32::MAX}; a permutation of both lists. Enumerated: all configurations for \
          n<=2 keys with <=3 entries over {Valid, BitFlip, Mislabeled}, every authorised subset and threshold 0..3. Oracle: (only-if) Ok => t>=1 \
          and at least t distinct authorised keys have an entry labelled with their id that is a genuine signature by them over this content \
          (ground truth by construction); (converse, when no two entries share a key id) that count >= t>=1 => Ok, same verdict under the \
          permutation, returned metadata == block metadata. Non-trivial: >=2 entries or t>=2 or an adversarial entry kind; distinct by \
-         (entries, authorised, threshold, key kinds)."
+         (entries, authorised, threshold, key kinds). A quarter of the cases additionally authorise a copy of one key loaded from a JSON key document whose keyid member names a foreign id, and repeat that key's genuine signature labelled with the foreign id: it must count for nobody."
             .into()
     }
     fn assumptions() -> Vec<String> {
@@ -160,7 +164,13 @@ impl Property for C04 {
         tier.pick(240_000, 1_000_000)
     }
     fn strategy(_tier: Tier) -> BoxedStrategy<Spec> {
-        prop_oneof![4 => spec_strategy(true, 4), 1 => spec_strategy(false, 3)].boxed()
+        // RSA keys are what a JSON key document describes by text (PEM); give the mixed-key class more weight here
+        (prop_oneof![3 => spec_strategy(true, 4), 2 => spec_strategy(false, 3)], proptest::option::weighted(0.25, 0usize..4))
+            .prop_map(|(mut s, ja)| {
+                s.json_alias = ja;
+                s
+            })
+            .boxed()
     }
     fn enumerate(_tier: Tier, worker: usize, workers: usize) -> Box<dyn Iterator<Item = Spec>> {
         let keys = vec![KeySpec::Ed { seed: 1, pkcs8: true }, KeySpec::Ed { seed: 2, pkcs8: false }];
@@ -186,7 +196,7 @@ impl Property for C04 {
             for a in &auths {
                 for t in 0u32..4 {
                     if i % workers == worker {
-                        out.push(Spec { content: content.clone(), keys: keys.clone(), entries: l.clone(), authorized: a.clone(), threshold: t, perm: vec![1, 2, 0], unknown_scheme: None });
+                        out.push(Spec { content: content.clone(), keys: keys.clone(), entries: l.clone(), authorized: a.clone(), threshold: t, perm: vec![1, 2, 0], unknown_scheme: None, json_alias: None });
                     }
                     i += 1;
                 }
@@ -260,6 +270,20 @@ impl Property for C04 {
                 }
             }
             o.class("transplanted-signature-verified-over-its-own-content-before");
+        }
+        // only for a key that is authorised anyway: the JSON-loaded copy must add nothing
+        if let Some(i) = spec.json_alias.filter(|i| spec.authorized.contains(&(i % n))) {
+            let k = &spec.keys[i % n];
+            let foreign = "ab".repeat(32);
+            let mut doc = crate::model::keyid::key_wire(k).1;
+            doc["keyid"] = json!(foreign);
+            if let Ok(alias) = serde_json::from_value::<PublicKey>(doc) {
+                let sk = private(k);
+                let bytes = Metablock::new(b.block.metadata.clone(), &[&*sk]).expect("sign").signatures[0].value().as_bytes().to_vec();
+                b.block.signatures.push(make_sig(&foreign, &bytes));
+                auth.push(alias);
+                o.class("json-loaded-key-with-foreign-keyid-member");
+            }
         }
         let t = spec.threshold;
         let res = b.block.verify(t, auth.iter());
